@@ -392,3 +392,166 @@ func init() {
 			return obs
 		}})
 }
+
+func init() {
+	register(&Rule{ID: "SLEEP.cap-positive", Floor: 2,
+		Doc: "sleepCap never hands back a cap that is not positive: every return without an error returns a positive constant (the one-hour default), or a value that was compared with zero on the way (`x <= 0` refused, or an edge `x > 0`) — a zero or negative cap means `no limit` to time:sleep, so a host setting that means `disabled` must not leak into the default cap; and Runtime.MaxSleepCeiling reports every non-positive setting as 0",
+		Run: func(c *Ctx) []Obligation {
+			var obs []Obligation
+			fn, fd, pkg := c.LookupFunc("lisp/lisplib/libtime.sleepCap")
+			if fn == nil {
+				obs = append(obs, anchorMissing("SLEEP.cap-positive", "libtime.sleepCap"))
+			} else {
+				u := FuncUnit{fn, fd, pkg}
+				info := pkg.TypesInfo
+				fc := c.cfgOf(u, nil)
+				ord := &ordinal{}
+				for _, b := range fc.G.Blocks {
+					if !fc.Live(b) {
+						continue
+					}
+					for _, n := range b.Nodes {
+						rs, ok := n.(*ast.ReturnStmt)
+						if !ok || len(rs.Results) != 2 {
+							continue
+						}
+						if tv, ok := info.Types[rs.Results[1]]; !ok || !tv.IsNil() {
+							continue // an error return
+						}
+						v := ast.Unparen(rs.Results[0])
+						construct := ord.next("cap returned")
+						// a positive constant
+						if tv, ok := info.Types[v]; ok && tv.Value != nil {
+							if k, ok := constantInt64(tv); ok && k > 0 {
+								obs = append(obs, mkOb(c, "SLEEP.cap-positive", u, construct, rs, Proved, "positive constant", false))
+								continue
+							}
+						}
+						term := types.ExprString(v)
+						// every definition of the returned local is positive in the same sense, or the path established 0 < term
+						cut := factEdges(fc, info, fd.Body, cmpFact{lo: "", hi: term, strict: true}, nil)
+						if len(cut) > 0 && !fc.reachableAvoiding(b, cut) {
+							obs = append(obs, mkOb(c, "SLEEP.cap-positive", u, construct, rs, Proved, "`"+term+"` was compared with zero on every path (0 < "+term+")", true))
+							continue
+						}
+						// a local whose every assignment is a positive constant or such a checked value
+						if o := identObj(info, v); o != nil {
+							allOK, ndef := true, 0
+							ast.Inspect(fd.Body, func(m ast.Node) bool {
+								as, ok := m.(*ast.AssignStmt)
+								if !ok || len(as.Lhs) != len(as.Rhs) {
+									return true
+								}
+								for i, l := range as.Lhs {
+									if identObj(info, l) != o {
+										continue
+									}
+									ndef++
+									r := ast.Unparen(as.Rhs[i])
+									if tv, ok := info.Types[r]; ok && tv.Value != nil {
+										if k, ok := constantInt64(tv); ok && k > 0 {
+											continue
+										}
+									}
+									loc, ok := fc.Locate(as)
+									rt := types.ExprString(r)
+									rcut := factEdges(fc, info, fd.Body, cmpFact{lo: "", hi: rt, strict: true}, nil)
+									if ok && len(rcut) > 0 && !fc.reachableAvoiding(loc.B, rcut) {
+										continue
+									}
+									allOK = false
+								}
+								return true
+							})
+							if allOK && ndef > 0 {
+								obs = append(obs, mkOb(c, "SLEEP.cap-positive", u, construct, rs, Proved, "every value assigned to `"+term+"` is a positive constant or was compared with zero", true))
+								continue
+							}
+						}
+						obs = append(obs, mkOb(c, "SLEEP.cap-positive", u, construct, rs, Violated, "sleepCap can return `"+term+"` without it having been shown positive: a zero or negative cap reads as `no limit`, so a host ceiling that is disabled (negative) removes the one-hour default", true))
+					}
+				}
+			}
+			// the accessor
+			afn, afd, apkg := c.LookupFunc("lisp.(*Runtime).MaxSleepCeiling")
+			fld := c.LookupField("lisp.Runtime.MaxSleep")
+			if afn == nil || fld == nil {
+				obs = append(obs, anchorMissing("SLEEP.cap-positive", "Runtime.MaxSleepCeiling / Runtime.MaxSleep"))
+				return obs
+			}
+			au := FuncUnit{afn, afd, apkg}
+			ainfo := apkg.TypesInfo
+			afc := c.cfgOf(au, nil)
+			ord := &ordinal{}
+			for _, b := range afc.G.Blocks {
+				if !afc.Live(b) {
+					continue
+				}
+				for _, n := range b.Nodes {
+					rs, ok := n.(*ast.ReturnStmt)
+					if !ok || len(rs.Results) != 1 {
+						continue
+					}
+					construct := ord.next("ceiling returned")
+					v := ast.Unparen(rs.Results[0])
+					if k, ok := intConst(ainfo, v); ok && k == 0 {
+						obs = append(obs, mkOb(c, "SLEEP.cap-positive", au, construct, rs, Proved, "reports `none` as 0", false))
+						continue
+					}
+					term := types.ExprString(v)
+					cut := factEdges(afc, ainfo, afd.Body, cmpFact{lo: "", hi: term, strict: true}, nil)
+					if len(cut) > 0 && !afc.reachableAvoiding(b, cut) {
+						obs = append(obs, mkOb(c, "SLEEP.cap-positive", au, construct, rs, Proved, "`"+term+"` is returned only when positive", true))
+					} else {
+						obs = append(obs, mkOb(c, "SLEEP.cap-positive", au, construct, rs, Violated, "MaxSleepCeiling can return a non-positive setting as it is: callers compare the ceiling with `> 0` or `== 0` and a negative (disabled) value then behaves like a ceiling", true))
+					}
+				}
+			}
+			return obs
+		}})
+
+	register(&Rule{ID: "TIME.duration-float", Floor: 2,
+		Doc: "duration-s / duration-ms / duration-ns and their siblings convert a duration with float arithmetic on its nanosecond count (float64(d)/unit, d.Seconds()) — none of the truncating integer accessors time.Duration.Milliseconds / Microseconds is used in libtime, so a duration that is not a whole number of the unit keeps its fraction",
+		Run: func(c *Ctx) []Obligation {
+			var obs []Obligation
+			nconv := 0
+			for _, u := range c.Funcs(func(p string) bool { return rel(p) == "lisp/lisplib/libtime" }) {
+				info := u.Pkg.TypesInfo
+				ord := &ordinal{}
+				ast.Inspect(u.Decl.Body, func(n ast.Node) bool {
+					ce, ok := n.(*ast.CallExpr)
+					if !ok {
+						return true
+					}
+					// float64(d) conversions of a Duration
+					if tv, ok := info.Types[ce.Fun]; ok && tv.IsType() && len(ce.Args) == 1 {
+						if bt, ok := tv.Type.Underlying().(*types.Basic); ok && bt.Kind() == types.Float64 {
+							if at, ok := info.Types[ce.Args[0]]; ok && strings.HasSuffix(at.Type.String(), "time.Duration") {
+								nconv++
+								obs = append(obs, mkOb(c, "TIME.duration-float", u, ord.next("float64(duration)"), ce, Proved, "float conversion of the nanosecond count", false))
+							}
+						}
+						return true
+					}
+					fn := Callee(info, ce)
+					if fn == nil || fn.Pkg() == nil || fn.Pkg().Path() != "time" {
+						return true
+					}
+					if sig, ok := fn.Type().(*types.Signature); ok && sig.Recv() != nil && strings.HasSuffix(sig.Recv().Type().String(), "time.Duration") {
+						switch fn.Name() {
+						case "Milliseconds", "Microseconds":
+							obs = append(obs, mkOb(c, "TIME.duration-float", u, ord.next("Duration."+fn.Name()), ce, Violated, "Duration."+fn.Name()+"() truncates to a whole number of units: (duration-ms (parse-duration \"1500us\")) would be 1, not 1.5", true))
+						case "Seconds", "Minutes", "Hours":
+							nconv++
+							obs = append(obs, mkOb(c, "TIME.duration-float", u, ord.next("Duration."+fn.Name()), ce, Proved, "float accessor", false))
+						}
+					}
+					return true
+				})
+			}
+			if nconv < 2 {
+				obs = append(obs, Obligation{Rule: "TIME.duration-float", Func: "lisp/lisplib/libtime", Construct: "coverage", Verdict: Undecided, Detail: fmt.Sprintf("only %d float conversions of a duration found in libtime", nconv)})
+			}
+			return obs
+		}})
+}
